@@ -20,4 +20,12 @@ Lemma gen_frac_parallelogram_eq (p1 p2 p3 : T * T) oy ox :
 Proof. destruct p1, p2, p3. reflexivity. Qed.
 Lemma gen_resample_eq p1 p2 p3 p4 s t : gen_resample OP (p1, p2, p3, p4) (s, t) = resample OP p1 p2 p3 p4 s t.
 Proof. reflexivity. Qed.
+Lemma gen_invalid_to_nan_eq t s : gen_invalid_to_nan OP t s = invalid_to_nan OP (t, s).
+Proof. reflexivity. Qed.
+Lemma gen_frac_irregular_eq (p1 p2 p3 p4 : T * T) oy ox :
+  gen_frac_irregular OP (p1, p2, p3, p4) oy ox = frac_irregular OP p1 p2 p3 p4 oy ox.
+Proof. destruct p1, p2, p3, p4. reflexivity. Qed.
+Lemma gen_frac_uprights_eq (p1 p2 p3 p4 : T * T) oy ox :
+  gen_frac_uprights OP (p1, p2, p3, p4) oy ox = frac_uprights OP p1 p2 p3 p4 oy ox.
+Proof. destruct p1, p2, p3, p4. reflexivity. Qed.
 End Ties.
